@@ -357,6 +357,8 @@ class Executor:
             if v[0] == "adt":
                 return v[3][p[1]]
             raise MirError("field of %r" % (v[0],))
+        if p[0] == "refto":
+            return v
         if p[0] == "downcast":
             if v[0] == "adt":
                 return v
@@ -603,10 +605,12 @@ class Executor:
             for arm in split_top(m.group(2), ","):
                 kk, tgt = [x.strip() for x in arm.split(":")]
                 if kk == "otherwise":
-                    cond = s_and(*[s_not(c) for c in taken])
+                    cond = "false" if "true" in taken else s_and(*[s_not(c) for c in taken if c != "false"])
                 else:
                     if v[0] == "bool":
                         cond = v[1] if int(kk) != 0 else s_not(v[1])
+                    elif const_value(v[1]) is not None:
+                        cond = "true" if const_value(v[1]) == int(kk) else "false"
                     else:
                         cond = "(= %s %s)" % (v[1], lit(int(kk)))
                     taken.append(cond)
@@ -625,9 +629,21 @@ class Executor:
             cond = s_not(v[1]) if neg else v[1]
             self.obligations.append(("no panic: " + m.group(2), list(pc), cond, f.name))
             return [("go", m.group(3), env, pc + ([cond] if cond != "true" else []))]
-        m = re.match(r"^(.+?) = (.+?)\((.*)\) -> (?:\[return: (bb\d+), .*\]|(bb\d+)|unwind .*)$", t)
-        if m:
-            dst, callee, argstr, ret_bb = m.group(1), m.group(2).strip(), m.group(3), m.group(4)
+        m = re.match(r"^(.+?) = (.*) -> (?:\[return: (bb\d+), .*\]|(bb\d+)|unwind .*)$", t)
+        if m and m.group(2).endswith(")"):
+            dst, callexpr, ret_bb = m.group(1), m.group(2), m.group(3)
+            # the argument list is the last balanced parenthesis group
+            depth = 0
+            k = len(callexpr) - 1
+            while k >= 0:
+                if callexpr[k] == ")":
+                    depth += 1
+                elif callexpr[k] == "(":
+                    depth -= 1
+                    if depth == 0:
+                        break
+                k -= 1
+            callee, argstr = callexpr[:k].strip(), callexpr[k + 1:-1]
             args = [self.operand(f, a, env) for a in split_top(argstr, ",") if a.strip()]
             if ret_bb is None:
                 # diverging call (panic)
@@ -635,7 +651,7 @@ class Executor:
                 return []
             outs = []
             for (extra_pc, val) in self.call(callee, args, pc, depth):
-                e2 = self.copy_env(env) if len(outs) or True else env
+                e2 = self.copy_env(env)
                 self.write_place(f, dst, e2, val)
                 outs.append(("go", ret_bb, e2, pc + extra_pc))
             return outs
@@ -644,6 +660,7 @@ class Executor:
     def call(self, callee, args, pc, depth):
         """-> [(extra path condition, return value)]"""
         key = normalise_callee(callee)
+        self.current_callee = callee
         for pat, fn in self.models.items():
             if re.search(pat, key):
                 self.models_used.add(pat)
